@@ -516,7 +516,7 @@ Proof.
   - (* Recover *)
     destruct (find name (mem s)) as [w|] eqn:Ef; [|exact I].
     destruct (w_enc w) eqn:Ew; [|exact I]. cbn [negb].
-    destruct (negb (w_type w =? TDet)); [exact I|]. destruct (seed =? 0); [exact I|].
+    destruct (negb (w_type w =? TDet)); [exact I|]. destruct ((w_label w =? 0) || (seed =? 0)); [exact I|].
     destruct (negb (fp_of (w_type w) seed =? fp w)) eqn:Efp; [exact I|].
     apply negb_false_iff in Efp. apply Z.eqb_eq in Efp.
     pose proof (find_name _ _ _ Ef) as Hnm.
